@@ -1,11 +1,11 @@
 package props
 
 import (
-	"math"
 	"bufio"
 	"bytes"
 	"context"
 	"fmt"
+	"math"
 	"os"
 	"os/exec"
 	"path/filepath"
@@ -510,9 +510,9 @@ func auditLog(log string, zoneinfo string) (violations []string, inside int, mar
 // faultScripts end in a run-time fault, some of them in a Go run-time panic
 // that Execute recovers (also used by the CLI part of C20).
 var faultScripts = []string{"return 7 % 0;", "a = 7; b = len(\"\"); return a % b;", "return 1.5 % 0.2;", "return 1 / 0;", "function f(n) { return n % (n - n); } return f(3);",
-		"foreach x in [3, 2, 1, 0] { y = 6 % x; } return y;", "return [1, 2][9].x;", "return nosuch(1);", "panic(\"/etc/passwd\");", "panic();", "return \"a\" + 1;",
-		"function r(n) { return r(n + 1); } return r(0);", "x = f(); return x;", "return {[1]: 2};", "return 1 .. \"a\";", "foreach x in 5 { }", "return Name[0][0][0][0];",
-		"return sort(5) % 0;", "return -(\"a\");", "return √\"a\";", "return len(); ", "return 9223372036854775807 % -1;", "return (0 - 9223372036854775807 - 1) / -1;"}
+	"foreach x in [3, 2, 1, 0] { y = 6 % x; } return y;", "return [1, 2][9].x;", "return nosuch(1);", "panic(\"/etc/passwd\");", "panic();", "return \"a\" + 1;",
+	"function r(n) { return r(n + 1); } return r(0);", "x = f(); return x;", "return {[1]: 2};", "return 1 .. \"a\";", "foreach x in 5 { }", "return Name[0][0][0][0];",
+	"return sort(5) % 0;", "return -(\"a\");", "return √\"a\";", "return len(); ", "return 9223372036854775807 % -1;", "return (0 - 9223372036854775807 - 1) / -1;"}
 
 // c10Keys: the script executions of the last traced worker.
 var c10Keys []string
